@@ -663,7 +663,7 @@ func (c *EvalCtx) evalCall(e *ECall) Val {
 		et := mt.Elem().Underlying().(*types.Slice).Elem()
 		v, dom := eng.mapLoad(c.p, c.snap(), h.T, h.S, "(canon_header "+k.S+")")
 		first := eng.loadElem(c.p, c.snap(), v.S, v.Off, et)
-		return Val{K: KScalar, T: types.Typ[types.String], S: ite(and(dom, "(> "+v.Len+" 0)"), first.S, zeroOfSort(eng.strSort()))}
+		return Val{K: KScalar, T: types.Typ[types.String], S: ite(and(not(eq(h.S, "0")), dom, "(> "+v.Len+" 0)"), first.S, zeroOfSort(eng.strSort()))}
 	case "durstring":
 		v := c.eval(e.Args[0])
 		eng.ufun("dur_string", "(Int) "+eng.strSort())
@@ -714,6 +714,33 @@ func (c *EvalCtx) evalCall(e *ECall) Val {
 			}
 		}
 		c.fail("global: %s not found", name)
+	case "concat", "contains", "prefixof", "suffixof", "strlen", "substr", "indexof", "isdigits":
+		if !eng.stringMode {
+			c.fail("%s() needs a function contract with the `strings` flag", e.Fn)
+		}
+		var a []string
+		for _, x := range e.Args {
+			a = append(a, c.eval(x).S)
+		}
+		strT := types.Typ[types.String]
+		switch e.Fn {
+		case "concat":
+			return Val{K: KScalar, T: strT, S: "(str.++ " + strings.Join(a, " ") + ")"}
+		case "contains":
+			return boolVal("(str.contains " + a[0] + " " + a[1] + ")")
+		case "prefixof":
+			return boolVal("(str.prefixof " + a[0] + " " + a[1] + ")")
+		case "suffixof":
+			return boolVal("(str.suffixof " + a[0] + " " + a[1] + ")")
+		case "strlen":
+			return intVal("(str.len " + a[0] + ")")
+		case "substr":
+			return Val{K: KScalar, T: strT, S: "(str.substr " + a[0] + " " + a[1] + " " + a[2] + ")"}
+		case "indexof":
+			return intVal("(str.indexof " + a[0] + " " + a[1] + " 0)")
+		case "isdigits":
+			return boolVal("(str.in_re " + a[0] + " (re.+ (re.range \"0\" \"9\")))")
+		}
 	case "tagof":
 		v := c.eval(e.Args[0])
 		if v.K != KIface {
